@@ -15,8 +15,8 @@ Fails closed: an anchor that is not recognised is emitted as a value that falsif
 """
 import ast
 
-from ._symsrc import (SRCOPS_FILE, Out, Sym, as_int, canon, cmp_parts, exc_name, find, find_def, findall, match,
-                      read_tree, safe, text)
+from ._symsrc import (SRCOPS_FILE, L_str, Out, Sym, as_int, canon, cmp_parts, exc_name, find, find_def, findall, func_shape,
+                      match, read_tree, safe, text)
 
 
 def _pairs(cond):
@@ -60,6 +60,9 @@ def _intersect_lines(o, tree):
         o.d(nm + "Ops", "List Cmp", "[" + ", ".join(".%s" % (x if x in ("eq", "ne", "lt", "le", "gt", "ge") else "other")
                                                    for x in (pr[1] or ["other"])) + "]")
         o.str(nm + "Result", safe(lambda: text(res(i))))
+        o.d(nm + "PairList", "List (String × String)",
+            "[" + ", ".join("(%s, %s)" % (L_str(x.split(" ")[0]), L_str(x.split(" ")[1])) for x in (pr[0] or [])
+                            if len(x.split(" ")) == 2) + "]", "the same pairs, split")
     o.str("eSrc", safe(lambda: text(e)), "E")
     o.str("fSrc", safe(lambda: text(f)), "F")
     o.str("gSrc", safe(lambda: text(g)), "G")
@@ -130,4 +133,9 @@ def generate(repo):
             del o.lines[n:]
             o.notes.append("%s: %r" % (part.__name__, e))
         o.blank()
+    o.shapes("functionShapes",
+             [func_shape(t1, "intersect_lines"), func_shape(t1, "intersect_2d_lines"), func_shape(t3, "project_point_to_line")] +
+             [func_shape(t2, "Line." + q) for q in ("__init__", "from_points", "reference_points", "intersect_line", "project")],
+             "for every function read above: (name, decorators, parameters with defaults, statements the symbolic reader "
+             "does not interpret, other bindings of the name in its scope)")
     return [SRCOPS_FILE, o.result()]
